@@ -103,7 +103,15 @@ func alphabet() []hop {
 	}
 	// "replace": ONE notification deleting subtree a and updating a/b, a/c[k=v] below it
 	out = append(out, hop{"replace", 0}, hop{"replace", 1})
+	// updates carrying their value in the deprecated Update.value field (JSON
+	// encoding), which collector and client library still relay and decode
+	out = append(out, hop{"updjson", 0}, hop{"updjson", 4})
 	return out
+}
+
+// jsonAt is the deprecated-encoding value written at position i of a history.
+func jsonAt(i int) (*pb.Value, interface{}) {
+	return &pb.Value{Type: pb.Encoding_JSON, Value: []byte(fmt.Sprintf("%q", fmt.Sprintf("j%d", i)))}, fmt.Sprintf("j%d", i)
 }
 
 func histories(maxLen int) [][]hop {
@@ -129,6 +137,9 @@ func histName(h []hop) string {
 		if o.kind == "upd" {
 			_, v := valueAt(i)
 			p = append(p, fmt.Sprintf("update(%s=%T %v)", paths[o.path].name, v, v))
+		} else if o.kind == "updjson" {
+			_, v := jsonAt(i)
+			p = append(p, fmt.Sprintf("update(%s=deprecated JSON value %q)", paths[o.path].name, v))
 		} else if o.kind == "replace" {
 			_, v := valueAt(i)
 			p = append(p, fmt.Sprintf("replace(delete a + update %s=%T %v in one notification)", paths[o.path].name, v, v))
@@ -151,6 +162,11 @@ func model(h []hop) map[string]string {
 		key := org + "/" + strings.Join(ps.index, "/")
 		if o.kind == "upd" {
 			_, v := valueAt(i)
+			m[key] = render(v)
+			continue
+		}
+		if o.kind == "updjson" {
+			_, v := jsonAt(i)
 			m[key] = render(v)
 			continue
 		}
@@ -195,6 +211,20 @@ type targetServer struct {
 	pb.UnimplementedGNMIServer
 	mu    sync.Mutex
 	plays map[string][]hop // target name -> history
+	// gates: the history of a target is played only once its gate is open (the
+	// harness opens it after a client has subscribed to that target through the
+	// collector and received its sync, so that every operation is relayed live)
+	gates map[string]chan struct{}
+	once  map[string]*sync.Once
+}
+
+func (s *targetServer) open(name string) {
+	s.mu.Lock()
+	o, g := s.once[name], s.gates[name]
+	s.mu.Unlock()
+	if o != nil {
+		o.Do(func() { close(g) })
+	}
 }
 
 const sentinel = "zz-sentinel"
@@ -211,6 +241,16 @@ func (s *targetServer) Subscribe(stream pb.GNMI_SubscribeServer) error {
 	if !ok {
 		return fmt.Errorf("no history for target %q", name)
 	}
+	s.mu.Lock()
+	g := s.gates[name]
+	s.mu.Unlock()
+	if g != nil {
+		select {
+		case <-g:
+		case <-stream.Context().Done():
+			return nil
+		}
+	}
 	ts := int64(1000)
 	for i, o := range h {
 		ts++
@@ -222,6 +262,9 @@ func (s *targetServer) Subscribe(stream pb.GNMI_SubscribeServer) error {
 		if o.kind == "upd" {
 			tv, _ := valueAt(i)
 			n.Update = []*pb.Update{{Path: ps.build(), Val: tv}}
+		} else if o.kind == "updjson" {
+			dv, _ := jsonAt(i)
+			n.Update = []*pb.Update{{Path: ps.build(), Value: dv}}
 		} else if o.kind == "replace" {
 			tv, _ := valueAt(i)
 			n.Delete = []*pb.Path{paths[5].build()}
@@ -232,6 +275,11 @@ func (s *targetServer) Subscribe(stream pb.GNMI_SubscribeServer) error {
 		if err := stream.Send(&pb.SubscribeResponse{Response: &pb.SubscribeResponse_Update{Update: n}}); err != nil {
 			return err
 		}
+		// Pace the operations so that each is normally relayed to the live
+		// client before the next arrives (a subscriber is sent a leaf's LATEST
+		// value, so back-to-back operations would hide a relay that drops the
+		// later one). Sensitivity only: no verdict depends on this pause.
+		time.Sleep(50 * time.Millisecond)
 	}
 	ts++
 	stream.Send(&pb.SubscribeResponse{Response: &pb.SubscribeResponse_Update{Update: &pb.Notification{Timestamp: ts, Update: []*pb.Update{{Path: &pb.Path{Elem: []*pb.PathElem{el(sentinel)}}, Val: &pb.TypedValue{Value: &pb.TypedValue_BoolVal{BoolVal: true}}}}}}})
@@ -311,11 +359,13 @@ func (r *rig) viol(class, hist, format string, a ...interface{}) {
 // runBatch plays one history per configured target through one collector process.
 func (r *rig) runBatch(batch int, hs [][]hop, distinctRequests bool, cliSample map[int]bool) {
 	// scripted target
-	ts := &targetServer{plays: map[string][]hop{}}
+	ts := &targetServer{plays: map[string][]hop{}, gates: map[string]chan struct{}{}, once: map[string]*sync.Once{}}
 	names := make([]string, len(hs))
 	for i, h := range hs {
 		names[i] = fmt.Sprintf("h%03d", i)
 		ts.plays[names[i]] = h
+		ts.gates[names[i]] = make(chan struct{})
+		ts.once[names[i]] = &sync.Once{}
 		r.ops += int64(len(h))
 	}
 	lis, err := net.Listen("tcp", "127.0.0.1:0")
@@ -393,7 +443,7 @@ wait:
 		go func() {
 			defer wg.Done()
 			defer func() { <-sem }()
-			r.checkSlot(caddr, names[i], hs[i], cliSample[i])
+			r.checkSlot(ts, caddr, names[i], hs[i], cliSample[i])
 		}()
 	}
 	wg.Wait()
@@ -433,9 +483,30 @@ func renderMap(m map[string]string) string {
 	return b.String()
 }
 
-func (r *rig) checkSlot(caddr, target string, h []hop, withCLI bool) {
+func (r *rig) checkSlot(ts *targetServer, caddr, target string, h []hop, withCLI bool) {
+	defer ts.open(target) // never leave the target's handler waiting
 	hn := histName(h)
 	want := model(h)
+	// first a client that is subscribed BEFORE the target starts streaming
+	// (every operation reaches it live), then a fresh one that gets the final
+	// state as its initial snapshot
+	if !r.viewOf(ts, caddr, target, hn, want, true) {
+		return
+	}
+	if !r.viewOf(ts, caddr, target, hn, want, false) {
+		return
+	}
+	r.cliForms(caddr, target, hn, want, withCLI)
+}
+
+// viewOf subscribes a CacheClient to target through the collector and compares
+// its view behind the barrier with the model; live: the target's history is
+// released only after this client received its sync.
+func (r *rig) viewOf(ts *targetServer, caddr, target, hn string, want map[string]string, live bool) bool {
+	mode := "snapshot"
+	if live {
+		mode = "live"
+	}
 	c := client.New()
 	defer c.Close()
 	q := client.Query{Addrs: []string{caddr}, Target: target, Type: client.Stream, Queries: []client.Path{{"*"}}, TLS: &tls.Config{InsecureSkipVerify: true}, Timeout: 90 * time.Second}
@@ -450,7 +521,7 @@ func (r *rig) checkSlot(caddr, target string, h []hop, withCLI bool) {
 		select {
 		case err := <-errC:
 			r.viol("subscribe-through-collector-failed", hn, "target %s: a client subscribed through the collector got %v instead of the target's state (history %s)", target, err, hn)
-			return
+			return false
 		default:
 		}
 		// barrier = the client's sync (every leaf of the unordered initial walk
@@ -462,6 +533,9 @@ func (r *rig) checkSlot(caddr, target string, h []hop, withCLI bool) {
 			synced = true
 		default:
 		}
+		if synced {
+			ts.open(target) // live: only now does the target start streaming
+		}
 		got, seen = leavesOf(c, target)
 		if seen && synced {
 			break
@@ -470,13 +544,17 @@ func (r *rig) checkSlot(caddr, target string, h []hop, withCLI bool) {
 		time.Sleep(20 * time.Millisecond)
 	}
 	if !seen {
-		r.viol("leaf-never-visible", hn, "target %s: the sentinel leaf streamed after history %s never became visible to a client subscribed through the collector (view: %s)", target, hn, renderMap(got))
-		return
+		r.viol("leaf-never-visible", hn, "target %s (%s client): the sentinel leaf streamed after history %s never became visible to a client subscribed through the collector (view: %s)", target, mode, hn, renderMap(got))
+		return false
 	}
 	if renderMap(got) != renderMap(want) {
-		r.viol("client-view-differs", hn, "target %s after history %s: the client's view is\n  %s\nthe target's final state is\n  %s", target, hn, renderMap(got), renderMap(want))
-		return
+		r.viol("client-view-differs", hn, "target %s after history %s: the view of a client subscribed %s is\n  %s\nthe target's final state is\n  %s", target, hn, map[bool]string{true: "before the target streamed (live relay)", false: "afterwards (snapshot)"}[live], renderMap(got), renderMap(want))
+		return false
 	}
+	return true
+}
+
+func (r *rig) cliForms(caddr, target, hn string, want map[string]string, withCLI bool) {
 	if !withCLI {
 		return
 	}
